@@ -6,8 +6,10 @@
    followed by Depth calls.  Only the environment's choices are emitted. *)
 EXTENDS RegistriesUniverse, Json
 
-CONSTANTS Depth, RDepth, Kinds
+CONSTANTS Depth, RDepth, Kinds,
+          HSet                             \* "full" | "small": the call universe of the header machine
 VARIABLE x
+Full == HSet = "full"
 
 Tag(t, S) == {<<t>> \o it : it \in S}
 Static ==
@@ -22,14 +24,15 @@ Static ==
     \/ "ftext" \in Kinds /\ \E which \in {"flags", "edns"} : x \in {<<"ftext", which, [i \in 1..Len(s) |-> s[i]]>> : s \in FTextItems(which)}
 
 GInit == \/ Static
-         \/ "hb" \in Kinds /\ x \in {<<"hb", f>> : f \in GInitFlags}
+         \/ "hb" \in Kinds /\ x \in {<<"hb", f>> : f \in (IF Full THEN GInitFlags ELSE SInitFlags)}
          \/ "rb" \in Kinds /\ x = <<"rb">>
 
-HCall == \/ \E op \in GOps : x' = Append(x, <<"opcode", op>>)
-         \/ \E r \in GRcs : x' = Append(x, <<"rcode", r>>)
-         \/ \E n \in ToSet(FlagNames) : x' = Append(x, <<"raise", n>>) \/ x' = Append(x, <<"clear", n>>)
+HCall == \/ \E op \in (IF Full THEN GOps ELSE SOps) : x' = Append(x, <<"opcode", op>>)
+         \/ \E r \in (IF Full THEN GRcs ELSE SRcs) : x' = Append(x, <<"rcode", r>>)
+         \/ \E n \in (IF Full THEN ToSet(FlagNames) ELSE SNames) : x' = Append(x, <<"raise", n>>) \/ x' = Append(x, <<"clear", n>>)
          \/ \E b \in {0, 1} : x' = Append(x, <<"dnssec", b>>)
-         \/ \E ver \in GVers, xr \in GXrs, lo \in GELos : x' = Append(x, <<"edns", ver, xr, lo>>)
+         \/ \E ver \in (IF Full THEN GVers ELSE SVers), xr \in (IF Full THEN GXrs ELSE {0}), lo \in (IF Full THEN GELos ELSE SELos) :
+               x' = Append(x, <<"edns", ver, xr, lo>>)
          \/ x' = Append(x, <<"noedns">>)
 RCall == \E v \in GRVals, txt \in GRTexts, s \in {0, 1} : x' = Append(x, <<"register", v, txt, s>>)
 
